@@ -431,7 +431,7 @@ func (r Wrapper) introspectAccessToken(input string) (*ExtendedTokenIntrospectio
 	}
 
 	if token.InputDescriptorConstraintIdMap != nil {
-		for _, reserved := range []string{"iss", "sub", "exp", "iat", "active", "client_id", "scope"} {
+		for _, reserved := range []string{"iss", "sub", "aud", "exp", "iat", "active", "client_id", "scope", "cnf", "vps", "presentation_definitions", "presentation_submissions"} {
 			if _, isReserved := token.InputDescriptorConstraintIdMap[reserved]; isReserved {
 				return nil, fmt.Errorf("IntrospectAccessToken: InputDescriptorConstraintIdMap contains reserved claim name: %s", reserved)
 			}
